@@ -223,6 +223,16 @@ type throttledConn struct {
 	totalLimiter, localLimiter *rate.Limiter
 }
 
+// CloseWrite shuts down the writing side of the underlying connection if it can be
+// half-closed, so that a later handler (such as the proxy) can pass on an end of stream
+// to the client while the client is still sending.
+func (tc throttledConn) CloseWrite() error {
+	if cw, ok := tc.Conn.(interface{ CloseWrite() error }); ok {
+		return cw.CloseWrite()
+	}
+	return fmt.Errorf("underlying connection of type %T cannot be half-closed", tc.Conn)
+}
+
 func (tc throttledConn) Read(p []byte) (int, error) {
 	// The rate limiters will not let us wait for more than their burst
 	// size, so the max we can read in each iteration is the minimum of
